@@ -83,11 +83,20 @@ ANCHORS = {
     },
     "C08": {
         "neuroml/writers.py": ["NeuroMLWriter.*", "NeuroMLHdf5Writer.*", "ArrayMorphWriter.*"],
-        "neuroml/loaders.py": ["NeuroMLLoader.*", "NeuroMLHdf5Loader.*", "ArrayMorphLoader.*"],
+        "neuroml/loaders.py": ["NeuroMLLoader.*", "NeuroMLHdf5Loader.*", "ArrayMorphLoader.*",
+                               # second pass: the module-level readers are entry points of the fault model too
+                               "read_neuroml2_file", "read_neuroml2_string", "_read_neuroml2"],
         "neuroml/hdf5/NeuroMLHdf5Parser.py": ["NeuroMLHdf5Parser.parse", "NeuroMLHdf5Parser.parse_group",
                                               "NeuroMLHdf5Parser.parse_dataset", "NeuroMLHdf5Parser._is_dataset",
-                                              "NeuroMLHdf5Parser._get_node_size"],
-        NML: ["Network.exportHdf5"],
+                                              "NeuroMLHdf5Parser._get_node_size",
+                                              # second pass: expanded in the skeletons (every read is a fault point)
+                                              "NeuroMLHdf5Parser.start_group", "NeuroMLHdf5Parser.end_group",
+                                              "NeuroMLHdf5Parser._extract_named_indices"],
+        "neuroml/hdf5/__init__.py": ["get_str_attribute_group"],
+        "neuroml/hdf5/NetworkContainer.py": ["PopulationContainer.exportHdf5", "ProjectionContainer.exportHdf5",
+                                             "InputListContainer.exportHdf5", "OptimizedList._add_index_information"],
+        NML: ["Network.exportHdf5", "Population.exportHdf5", "Projection.exportHdf5", "ElectricalProjection.exportHdf5",
+              "ContinuousProjection.exportHdf5", "InputList.exportHdf5"],
     },
     "C09": {
         GSS: ["GeneratedsSuperSuper.add", "GeneratedsSuperSuper.component_factory", "GeneratedsSuperSuper._check_arg_list",
